@@ -72,7 +72,7 @@ def _branch_calls(f):
 
 def _r1(ctx):
     prog = ctx.prog
-    ctx.rule("R-C05-1", floor=8, what="HCM case table: handler -> branch routine(s); guards -> handlers")
+    ctx.rule("R-C05-1", floor=6, what="HCM case table: handler -> branch routine(s); guards -> handlers")
     want = {
         "_handle_case_a_i": [("secondary", ["previous_point", "mirrored(previous_point)"]), ("primary", ["current_point"])],
         "_handle_case_a_ii": [("secondary", ["previous_point", "current_point"])],
@@ -88,8 +88,13 @@ def _r1(ctx):
         else:
             ctx.violated(f, f.node, "%s follows %s; the HCM case needs %s" % (h, got, w), text="%s %s" % (h, got))
     ps = prog.func(D + "_hcm_process_sample")
-    from ._hcm import require_recognised_dispatch
-    require_recognised_dispatch(ps)
+    from ._hcm import require_recognised_dispatch, Restructured, dispatch_by_model
+    try:
+        require_recognised_dispatch(ps)
+    except Restructured:
+        # another control-flow shape: case selection, previous points and the Memory 1 / 2 continuation by abstract execution
+        dispatch_by_model(ctx, prog, ctx._rule, "case selection")
+        return
     loop = [s for s in ps.node.body if isinstance(s, ast.While)][0]
     top = [s for s in loop.body if isinstance(s, ast.If)]
     guards = {}
